@@ -117,6 +117,29 @@ theorem ceemdLoop_prefix (Nx : List Sig → Sig → Sig) (thr : Rat) (cap : Opti
     · exact List.prefix_append _ _
     · exact List.IsPrefix.trans (List.prefix_append _ _) (ih _)
 
+/-- every column of the complete-ensemble loop has the input's length when the ensemble step preserves it -/
+theorem ceemdLoop_lengths (Nx : List Sig → Sig → Sig) (thr : Rat) (cap : Option Nat) (x : Sig)
+    (hN : ∀ cols p, p.length = x.length → (Nx cols p).length = x.length) :
+    ∀ (fuel : Nat) (cols : List Sig), (∀ c ∈ cols, c.length = x.length) →
+      ∀ c ∈ (ceemdLoop Nx thr cap x fuel cols).1, c.length = x.length := by
+  intro fuel
+  induction fuel with
+  | zero => intro cols hl; simpa [ceemdLoop] using hl
+  | succ fuel ih =>
+    intro cols hl
+    have hp : (Sig.sub x (Sig.vsum x.length cols)).length = x.length := resid_length x cols hl
+    have hl' : ∀ d ∈ cols ++ [Nx cols (Sig.sub x (Sig.vsum x.length cols))], d.length = x.length := by
+      intro d hd
+      simp only [List.mem_append, List.mem_singleton] at hd
+      rcases hd with hd | rfl
+      · exact hl d hd
+      · exact hN _ _ hp
+    unfold ceemdLoop
+    simp only []
+    split
+    · exact hl'
+    · exact ih _ hl'
+
 /-! ### second layer -/
 
 theorem padCols_length (n k : Nat) (cols : List Sig) : (padCols n k cols).length = k := by
@@ -136,5 +159,106 @@ theorem padCols_getElem (n k : Nat) (cols : List Sig) (j : Nat) (hj : j < cols.l
 theorem padCols_zero (n k : Nat) (cols : List Sig) (j : Nat) (hj : cols.length ≤ j) (hk : j < k) :
     (padCols n k cols)[j]? = some (Sig.zeros n) := by
   simp [padCols, colOr, hk, List.getElem?_eq_none hj]
+
+/-! ### mask second layer -/
+
+/-- anatomy of a returning `mask_sift_second_layer` loop started at column index `s` -/
+theorem maskSecondLoop_ok (MS : Nat → Nat → Sig → Option (List Sig)) (n k nfreqs : Nat) :
+    ∀ (l : List Sig) (s : Nat) (bs : List (List Sig)), maskSecondLoop MS n k nfreqs s l = .ok bs →
+      bs.length = l.length ∧ (∀ j, j < l.length → s + j < nfreqs) ∧
+      ∀ j col, l[j]? = some col → ∃ cols, MS (s + j) k col = some cols ∧ bs[j]? = some (padCols n k cols) := by
+  intro l
+  induction l with
+  | nil =>
+    intro s bs h
+    simp only [maskSecondLoop, L2Result.ok.injEq] at h
+    subst h
+    simp
+  | cons col rest ih =>
+    intro s bs h
+    unfold maskSecondLoop at h
+    split at h
+    · cases h
+    · next hlt =>
+      split at h
+      · cases h
+      · next cols hms =>
+        split at h
+        · next bs' hrec =>
+          simp only [L2Result.ok.injEq] at h
+          subst h
+          obtain ⟨h1, h2, h3⟩ := ih (s + 1) bs' hrec
+          refine ⟨by simp [h1], ?_, ?_⟩
+          · intro j hj
+            cases j with
+            | zero => omega
+            | succ j => have := h2 j (by simp at hj; omega); omega
+          · intro j c hj
+            cases j with
+            | zero =>
+              simp only [List.getElem?_cons_zero, Option.some.injEq] at hj
+              subst hj
+              exact ⟨cols, by simpa using hms, by simp⟩
+            | succ j =>
+              simp only [List.getElem?_cons_succ] at hj
+              obtain ⟨cs, e1, e2⟩ := h3 j c hj
+              exact ⟨cs, by rw [← e1]; congr 1; omega, by simpa using e2⟩
+        · next e hne => exact (hne bs h).elim
+
+/-- the loop returns when enough masks are left for every column and no column's mask sift raises -/
+theorem maskSecondLoop_total (MS : Nat → Nat → Sig → Option (List Sig)) (n k nfreqs : Nat) :
+    ∀ (l : List Sig) (s : Nat), (∀ j, j < l.length → s + j < nfreqs) →
+      (∀ j col, l[j]? = some col → MS (s + j) k col ≠ none) →
+      ∃ bs, maskSecondLoop MS n k nfreqs s l = .ok bs := by
+  intro l
+  induction l with
+  | nil => intro s _ _; exact ⟨[], rfl⟩
+  | cons col rest ih =>
+    intro s hf hm
+    have h0 := hf 0 (by simp)
+    have hc := hm 0 col (by simp)
+    obtain ⟨bs, hb⟩ := ih (s + 1) (fun j hj => by have := hf (j + 1) (by simp; omega); omega)
+      (fun j c hj => by have := hm (j + 1) c (by simpa using hj); rwa [show s + (j + 1) = s + 1 + j by omega] at this)
+    cases hms : MS s k col with
+    | none => exact absurd hms (by simpa using hc)
+    | some cols =>
+      refine ⟨padCols n k cols :: bs, ?_⟩
+      unfold maskSecondLoop
+      rw [if_neg (by omega)]
+      simp only [hms, hb]
+
+/-- exhausted masks: the first column without a mask raises IndexError, provided the earlier columns' sifts return -/
+theorem maskSecondLoop_exhausted (MS : Nat → Nat → Sig → Option (List Sig)) (n k nfreqs : Nat) :
+    ∀ (l : List Sig) (s : Nat), s ≤ nfreqs → nfreqs < s + l.length →
+      (∀ j col, s + j < nfreqs → l[j]? = some col → MS (s + j) k col ≠ none) →
+      maskSecondLoop MS n k nfreqs s l = .indexError nfreqs := by
+  intro l
+  induction l with
+  | nil => intro s h1 h2 _; simp at h2; omega
+  | cons col rest ih =>
+    intro s h1 h2 hm
+    unfold maskSecondLoop
+    by_cases hs : nfreqs ≤ s
+    · rw [if_pos hs]; congr 1; omega
+    · rw [if_neg hs]
+      have hc := hm 0 col (by omega) (by simp)
+      cases hms : MS s k col with
+      | none => exact absurd hms (by simpa using hc)
+      | some cols =>
+        have := ih (s + 1) (by omega) (by simp at h2; omega)
+          (fun j c hj hl => by
+            have := hm (j + 1) c (by omega) (by simpa using hl)
+            rwa [show s + (j + 1) = s + 1 + j by omega] at this)
+        simp only [this]
+
+/-- the columns of `mask_sift` as the inner sift of the second layer: never more than the cap, never more than the
+    masks left, all [samples] long -/
+theorem maskSiftCol_some (M : Nat → List Sig → Sig → Option (Sig × Bool)) (thr : Rat) (nfreqs fuel ii k : Nat)
+    (col : Sig) (cols : List Sig) (h : maskSiftCol M thr nfreqs fuel ii k col = some cols) :
+    cols = (maskSift (M ii) thr k (some (nfreqs - ii)) col fuel).1 := by
+  unfold maskSiftCol at h
+  split at h
+  · cases h
+  · next c e _ heq => simp only [Option.some.injEq] at h; subst h; rw [heq]
 
 end Sift
